@@ -35,6 +35,8 @@ def _build_glyph(container, g):
     glyph.width = g.get("width", 0)
     if "height" in g:
         glyph.height = g["height"]
+    if g.get("verticalOrigin") is not None:
+        glyph.verticalOrigin = g["verticalOrigin"]
     glyph.unicodes = list(g.get("unicodes", []))
     pen = glyph.getPointPen()
     for c in g.get("contours", []):
